@@ -30,7 +30,8 @@ var NumericValues = []string{"1", "2", "3", "10", "9", "2.5", "-1", "0", "100", 
 
 // "urn:xa-" + "b" spells the same as "urn:x" + "a-b": expanded names are pairs, not concatenations
 var uris = []string{"urn:x", "urn:y", "urn:x", "urn:y", "urn:xa-"}
-var prefixes = []string{"p", "q", ""}
+// "Xml" is an ordinary prefix: only the exact lower-case "xml" is reserved for the XML namespace
+var prefixes = []string{"p", "q", "", "p", "q", "", "Xml"}
 
 type binding struct{ prefix, uri string }
 
@@ -235,7 +236,7 @@ func (g *gen) element(parent *Node, depth int, scope []binding, top bool) *Node 
 	// attributes
 	na := rapid.IntRange(0, 5).Draw(g.t, "nAttrs") - 2
 	for i := 0; i < na; i++ {
-		a := &Node{Kind: Attr, Parent: n, Local: g.pick("attrName", []string{"id", "k", "a", "b", "lang", "x-y"}), Value: g.value("attrVal")}
+		a := &Node{Kind: Attr, Parent: n, Local: g.pick("attrName", []string{"id", "k", "a", "b", "lang", "x-y", "LANG"}), Value: g.value("attrVal")}
 		var pref []binding
 		for _, b := range usable {
 			if b.prefix != "" {
@@ -245,7 +246,7 @@ func (g *gen) element(parent *Node, depth int, scope []binding, top bool) *Node 
 		if len(pref) > 0 && rapid.IntRange(0, 2).Draw(g.t, "attrInNS") == 0 {
 			b := pref[rapid.IntRange(0, len(pref)-1).Draw(g.t, "attrBinding")]
 			a.Space, a.Prefix = b.uri, b.prefix
-		} else if a.Local == "lang" && (top || !g.cfg.NoNS || g.cfg.XMLEverywhere) && rapid.Bool().Draw(g.t, "xmlLang") {
+		} else if (a.Local == "lang" || a.Local == "LANG") && (top || !g.cfg.NoNS || g.cfg.XMLEverywhere) && rapid.Bool().Draw(g.t, "xmlLang") {
 			a.Space, a.Prefix = XMLNS, "xml"
 			a.Value = g.pick("langVal", []string{"en", "en-US", "de", "", "EN-gb", "fr-CA"})
 		}
